@@ -111,9 +111,7 @@ func (a *agg) addVio(sig string, w Witness, n int64) {
 		a.vio[sig] = v
 	}
 	v.Count += n
-	if len(v.Witnesses) < 3 {
-		v.Witnesses = append(v.Witnesses, w)
-	}
+	v.Witnesses = AddWitness(v.Witnesses, w)
 }
 
 func (a *agg) merge(r *Result) {
